@@ -663,6 +663,10 @@ func (gen *Generator) GenerateLet(name string, args []Sexp) error {
 	gen.AddInstruction(AddScopeInstr{Name: "runtime " + name})
 	gen.scopes++
 
+	// the initialisers are not in tail position: the bindings and the body
+	// still follow them.
+	oldtail := gen.Tail
+	gen.Tail = false
 	if name == "letseq" {
 		for i, rs := range rstatements {
 			err := gen.Generate(rs)
@@ -682,6 +686,7 @@ func (gen *Generator) GenerateLet(name string, args []Sexp) error {
 			gen.AddInstruction(PopStackPutEnvInstr{lstatements[i]})
 		}
 	}
+	gen.Tail = oldtail
 	err := gen.GenerateBegin(args[1:])
 	if err != nil {
 		return err
@@ -696,7 +701,10 @@ func (gen *Generator) GenerateAssert(args []Sexp) error {
 	if len(args) != 1 {
 		return WrongNargs
 	}
+	oldtail := gen.Tail
+	gen.Tail = false // the test of the assertion follows
 	err := gen.Generate(args[0])
+	gen.Tail = oldtail
 	if err != nil {
 		return err
 	}
@@ -826,7 +834,12 @@ func (gen *Generator) GenerateCallBySymbol(sym *SexpSymbol, args []Sexp, orig Se
 		if len(args) == 1 && isUnquoteSplicing(args[0]) {
 			return fmt.Errorf("unquote-splicing must be inside a list, array or hash")
 		}
-		return gen.GenerateSyntaxQuote(args)
+		// unquoted expressions are operands of the template under construction.
+		oldtail := gen.Tail
+		gen.Tail = false
+		err := gen.GenerateSyntaxQuote(args)
+		gen.Tail = oldtail
+		return err
 	case "include":
 		return gen.GenerateInclude(args)
 	case "for":
@@ -1032,7 +1045,11 @@ func (gen *Generator) GenerateCall(expr *SexpPair) error {
 }
 
 func (gen *Generator) GenerateArray(arr *SexpArray) error {
+	// the elements are operands of the array constructor, not tail positions.
+	oldtail := gen.Tail
+	gen.Tail = false
 	err := gen.GenerateAll(arr.Val)
+	gen.Tail = oldtail
 	if err != nil {
 		return err
 	}
@@ -1762,8 +1779,9 @@ func (gen *Generator) GeneratePackage(expressions []Sexp) error {
 		}
 	}
 
-	gen.Tail = oldtail
+	// not a tail position either: the package is still to be wrapped up.
 	err := gen.Generate(expressions[size-1])
+	gen.Tail = oldtail
 	if err != nil {
 		return err
 	}
@@ -1814,7 +1832,11 @@ func (gen *Generator) GenerateReturn(xs []Sexp) error {
 		return nil
 	}
 
+	oldtail := gen.Tail
 	if n > 1 {
+		// several results are collected into one array: none of them is in
+		// tail position.
+		gen.Tail = false
 		gen.AddInstruction(PushInstr{SexpMarker})
 	}
 	for i := range xs {
@@ -1826,6 +1848,7 @@ func (gen *Generator) GenerateReturn(xs []Sexp) error {
 	}
 	if n > 1 {
 		gen.AddInstruction(VectorizeInstr(0))
+		gen.Tail = oldtail
 	}
 	return nil
 }
